@@ -263,4 +263,139 @@ theorem route_first_hop {w w1 w' : World} {rcv : Nat} {o a o2 a2 : Asset} {rest 
   · rw [hs.router]; exact hok.rcvNotRouter
   · rw [hs.router, hs.pair]; exact hok.routerNoPair
 
+/-- `b` is one of the assets of the route -/
+def OnRoute (b : Asset) (ops : List (Asset × Asset)) : Prop := ∃ h ∈ ops, b = h.1 ∨ b = h.2
+
+/-- the induction over the route -/
+theorem route_core {rcv : Nat} : ∀ (rest : List (Asset × Asset)) (o a : Asset) (w w' : World),
+    RouteOK w rcv ((o, a) :: rest) → routerHops w rcv ((o, a) :: rest) = .ok w' →
+    ∃ n, routerSimulate w (bal w o w.router) ((o, a) :: rest) = .ok n ∧
+      bal w' (lastAsk a rest) rcv = bal w (lastAsk a rest) rcv + n ∧
+      (∀ b, OnRoute b ((o, a) :: rest) → bal w' b w.router = 0) ∧
+      (∀ b, b ≠ lastAsk a rest → bal w' b rcv = bal w b rcv) ∧
+      (∀ b, ¬ OnRoute b ((o, a) :: rest) → ∀ z, bal w' b z = bal w b z)
+  | [], o, a, w, w', hok, h => by
+    rw [routerHops_single] at h
+    obtain ⟨R, P, hR, hP, hPa, hoa, hpr, hprcv⟩ := hok.head
+    have hg : (some rcv).getD w.router = rcv := rfl
+    obtain ⟨n, s, k, _, hsim, hz, hpay, hfr, hs, ht⟩ :=
+      hop_step (tgt := some rcv) hR hP hPa hoa hpr (by rw [hg]; exact Ne.symm hprcv) h
+    rw [hg] at hpay hfr
+    have hrr := hok.rcvNotRouter
+    refine ⟨n, ?_, hpay, ?_, ?_, ?_⟩
+    · rw [router_sim_cons hR hsim]; rfl
+    · rintro b ⟨h, hm, hb⟩
+      rw [List.mem_singleton] at hm
+      subst hm
+      by_cases hbo : b = o
+      · rw [hbo]; exact hz
+      · rw [hfr b w.router (Or.inr ⟨Ne.symm hpr, Ne.symm hrr⟩) (Or.inl hbo)]
+        exact hok.empty List.mem_cons_self hb hbo
+    · intro b hb
+      exact hfr b rcv (Or.inl hb) (Or.inr ⟨Ne.symm hprcv, hrr⟩)
+    · intro b hb z
+      have h1 : b ≠ a := fun e => hb ⟨(o, a), List.mem_cons_self, Or.inr e⟩
+      have h2 : b ≠ o := fun e => hb ⟨(o, a), List.mem_cons_self, Or.inl e⟩
+      exact hfr b z (Or.inl h1) (Or.inl h2)
+  | (o2, a2) :: rest, o, a, w, w', hok, h => by
+    obtain ⟨w1, h1, h2⟩ := routerHops_cons_cons h
+    obtain ⟨R, n1, s1, k1, hR, hsim, ho2, hbal, hz, hfr, hs, ht, hok1⟩ := route_first_hop hok h1 h2
+    subst ho2
+    obtain ⟨_, _, hR0, _, _, hoa, hpr, hprcv⟩ := hok.head
+    rw [hR] at hR0; injection hR0 with hR0; subst hR0
+    have hrr := hok.rcvNotRouter
+    obtain ⟨n, isim, ipay, izero, ircv, ifr⟩ := route_core rest o2 a2 w1 w' hok1 h2
+    rw [hs.router] at isim izero
+    rw [hbal] at isim
+    -- the pairs of the remaining hops hold in `w1` what they held in `w`
+    have hpairs : ∀ h ∈ (o2, a2) :: rest, ∀ R', facLookup w h.1 h.2 = some R' →
+        ∀ b, bal w1 b R'.pair = bal w b R'.pair := by
+      intro h hm R' hR' b
+      obtain ⟨R'', _, e1, _, _, _, e5, _⟩ := hok.resolves h (List.mem_cons_of_mem _ hm)
+      rw [hR'] at e1; injection e1 with e1; subst e1
+      have hne := hok.pair_ne hR hm hR'
+      exact hfr b R'.pair (Or.inr ⟨hne, e5⟩) (Or.inr ⟨hne, e5⟩)
+    rw [routerSimulate_congr hs ht _ hpairs] at isim
+    -- the recipient is not touched by the first hop
+    have hrcv : ∀ b, bal w1 b rcv = bal w b rcv := fun b =>
+      hfr b rcv (Or.inr ⟨Ne.symm hprcv, hrr⟩) (Or.inr ⟨Ne.symm hprcv, hrr⟩)
+    refine ⟨n, ?_, ?_, ?_, ?_, ?_⟩
+    · rw [router_sim_cons hR hsim]; exact isim
+    · show bal w' (lastAsk a2 rest) rcv = bal w (lastAsk a2 rest) rcv + n
+      rw [ipay, hrcv]
+    · rintro b ⟨h, hm, hb⟩
+      by_cases hon : OnRoute b ((o2, a2) :: rest)
+      · exact izero b hon
+      · rw [ifr b hon w.router]
+        rcases List.mem_cons.1 hm with e | hm'
+        · subst e
+          rcases hb with hb | hb
+          · rw [hb]; exact hz
+          · exact absurd ⟨(o2, a2), List.mem_cons_self, Or.inl hb⟩ hon
+        · exact absurd ⟨h, hm', hb⟩ hon
+    · intro b hb
+      rw [ircv b hb, hrcv]
+    · intro b hb z
+      have hon : ¬ OnRoute b ((o2, a2) :: rest) := fun ⟨h, hm, e⟩ => hb ⟨h, List.mem_cons_of_mem _ hm, e⟩
+      have h1 : b ≠ o2 := fun e => hb ⟨(o, o2), List.mem_cons_self, Or.inr e⟩
+      have h2 : b ≠ o := fun e => hb ⟨(o, o2), List.mem_cons_self, Or.inl e⟩
+      rw [ifr b hon z]
+      exact hfr b z (Or.inl h1) (Or.inl h2)
+
+/-- the hops of a successful route deliver exactly the router's quote -/
+theorem route_passthrough {w w' : World} {rcv : Nat} {ops : List (Asset × Asset)}
+    (hok : RouteOK w rcv ops) (hne : ops ≠ [])
+    (h : routerHops w rcv ops = .ok w') :
+    ∃ target n, (ops.getLast?.map (·.2)) = some target ∧
+      routerSimulateTop w (bal w ((ops.head?.map (·.1)).getD target) w.router) ops = .ok n ∧
+      (∀ first, ops.head?.map (·.1) = some first → first ≠ target →
+        bal w' target rcv = bal w target rcv + n) ∧
+      (∀ hp ∈ ops, ∀ b, (b = hp.1 ∨ b = hp.2) → b ≠ target → bal w' b w.router = 0) ∧
+      bal w' target w.router = bal w target w.router -
+        (if ops.head?.map (·.1) = some target then bal w target w.router else 0) ∧
+      (∀ b, b ≠ target → bal w' b rcv = bal w b rcv) := by
+  cases ops with
+  | nil => exact absurd rfl hne
+  | cons h0 rest =>
+    obtain ⟨o, a⟩ := h0
+    obtain ⟨n, hsim, hpay, hzero, hrcv, _⟩ := route_core rest o a w w' hok h
+    refine ⟨lastAsk a rest, n, getLast?_lastAsk rest o a, ?_, fun _ _ _ => hpay,
+      fun hp hm b hb _ => hzero b ⟨hp, hm, hb⟩, ?_, hrcv⟩
+    · unfold routerSimulateTop
+      rw [if_neg (List.cons_ne_nil _ _)]
+      exact hsim
+    · obtain ⟨hl, hlm, hle⟩ := lastAsk_mem rest o a
+      rw [hzero _ ⟨hl, hlm, Or.inr hle⟩]
+      show 0 = bal w (lastAsk a rest) w.router -
+        (if some o = some (lastAsk a rest) then bal w (lastAsk a rest) w.router else 0)
+      by_cases e : o = lastAsk a rest
+      · rw [if_pos (congrArg some e), Nat.sub_self]
+      · rw [if_neg (fun hh => e (Option.some.inj hh)), Nat.sub_zero]
+        exact (hok.empty hlm (Or.inr hle) (Ne.symm e)).symm
+
+/-- the whole `ExecuteSwapOperations` transaction is the hops of its route (the trailing minimum-receive
+assertion changes nothing), and the route is not empty -/
+theorem swapOps_passthrough {name : Asset → String} {w w' : World} {sender : Nat} {ops : List (Asset × Asset)}
+    {mn tgt : Option Nat} (_hok : RouteOK w (tgt.getD sender) ops)
+    (h : routerSwapOps name w sender ops mn tgt = .ok w') :
+    routerHops w (tgt.getD sender) ops = .ok w' ∧ ops ≠ [] := by
+  have hne : ops ≠ [] := by
+    intro e
+    subst e
+    simp [routerSwapOps] at h
+  refine ⟨?_, hne⟩
+  unfold routerSwapOps at h
+  cases hl : ops.getLast? with
+  | none => rw [hl] at h; cases h
+  | some last =>
+    rw [hl] at h
+    simp only [bind_ok_iff] at h
+    obtain ⟨_, _, h⟩ := h
+    cases mn with
+    | none => exact h
+    | some m =>
+      simp only [bind_ok_iff, pure_ok_iff] at h
+      obtain ⟨_, _, w1, hh, _, _, rfl⟩ := h
+      exact hh
+
 end Halo.C13W
